@@ -532,3 +532,164 @@ Example C03_history_end_to_end_nonvacuous :
   | _, _ => False
   end.
 Proof. vm_compute. repeat split. Qed.
+
+(* ======================================================================== *)
+(* ROUND gapE: the document invariants are DERIVED, key renames are INSIDE.
+
+   doc_inv d (Spec/C03guard.v) = wf_attr (ruamel containers carry the anchor attribute) &&
+   wf_docb (every container object sits at one place) && mkeys_distinct (the keys of a mapping are
+   pairwise different) && ce_flat (keys and set members are scalars): what every loaded document
+   satisfies.  It is proved to survive every kind of change a history is made of, so the history
+   theorems ask it of the FIRST document only; the guards that remain (act_ok2 / hist_ok2) speak about
+   the matched node alone (alias_clean: it is no set member and it is one object) and, for a Delete, ask
+   that every gathered coordinate locates a node. *)
+From YP Require Import C03inv C03invCreate C03guard C03rename C03history2 EvalHistory2.
+
+(* Delete: the document without the designated children (C04's prune, any designation) *)
+Theorem C03_wf_preserved_prune : forall T d, doc_inv d = true -> doc_inv (prune T d) = true.
+Proof. exact prune_doc_inv. Qed.
+Print Assumptions C03_wf_preserved_prune.
+
+(* ... hence every completed delete_nodes call (the repaired delete plan = prune: C04_delete_exact) *)
+Theorem C03_wf_preserved_delete : forall cs d d',
+  doc_inv d = true -> del_all_located d (pairs_of cs) = true ->
+  delete_nodes cs d = MDone d' -> doc_inv d' = true.
+Proof. exact delete_doc_inv. Qed.
+Print Assumptions C03_wf_preserved_delete.
+
+(* Create: the construction branch of _get_optional_nodes on a straight path (Create.walk, run from the
+   first identity the document does not use).  The new document satisfies the invariants - every
+   container it built has an identity of its own - and a container identity of the new document is
+   either one of the old document or a fresh one below the counter the walk returns. *)
+Theorem C03_wf_preserved_create : forall lit segs value vo d vo' d1 pc next1,
+  doc_inv d = true ->
+  create_walk lit segs value vo d = (vo', ROk (d1, pc, next1)) ->
+  doc_inv d1 = true /\
+  (forall x, In x (coids d1) -> In x (coids d) \/ (N.succ (max_oid d) <= x < next1)%N).
+Proof. exact create_walk_inv. Qed.
+Print Assumptions C03_wf_preserved_create.
+
+(* THE KEY RENAME ([name()] branch of _apply_change, CommentedMap), every case: a parent that is None
+   or no mapping is refused; a new name that is already a key of the parent (`value in parent`) is
+   refused with DuplicateKey and nothing changes; otherwise the entry at the FIRST key == parentref is
+   filed under the new name - krename: same place, same value, every other entry untouched - and a
+   parentref that is no key of the parent changes nothing.  (ruamel's ordereddict.insert(i, value,
+   pop(k)) is the positional replacement because the keys are pairwise different: od_insert_replace.) *)
+Theorem C03_rename_exact : forall p value vo d,
+  wf_doc d -> mkeys_distinct d = true ->
+  match pc_parent p with
+  | None => rename_key p value vo d = RErr (YPE Generic)
+  | Some o =>
+      match find_obj o d with
+      | None => rename_key p value vo d = ROk d
+      | Some (NMap i kvs) =>
+          if existsb (key_is value) kvs then rename_key p value vo d = RErr (YPE DuplicateKey)
+          else match find_idx (key_is (pc_ref p)) kvs with
+               | Some idx => rename_key p value vo d = ROk (krename o idx (NLeaf (mkinfo vo None false None) value) d)
+               | None => rename_key p value vo d = ROk d
+               end
+      | Some _ => rename_key p value vo d = RErr (YPE Generic)
+      end
+  end.
+Proof. exact rename_exact. Qed.
+Print Assumptions C03_rename_exact.
+
+(* ... and on plain data it is the re-filing of that one entry *)
+Theorem C03_rename_erase : forall o idx vi value d,
+  erase (krename o idx (NLeaf vi value) d) = drekey (mask_entry o idx d) value (erase d).
+Proof. exact erase_krename. Qed.
+Print Assumptions C03_rename_erase.
+
+(* THE CHAIN, renames included: every change of one set_value call is either a key rename (one PRekey at
+   the renamed entry) or the substitution of C03_set_exact (one PReplace + one PRekey of the alias keys);
+   a change that addresses nothing leaves the document alone; the invariants survive, and no container
+   identity is new.  Hypotheses: doc_inv of the document the call starts from; guard acts_ok2 =
+   alias_clean of every matched node (the node is no set member, it is one object). *)
+Theorem C03_chain : forall lit fl value vo acts st st',
+  doc_inv (fst st) = true -> acts_ok2 lit fl value vo acts st = true ->
+  run_actions lit fl value vo acts st = SDone st' ->
+  psteps (abs_actions2 lit fl value vo acts st) (erase (fst st)) (erase (fst st')) /\ doc_inv (fst st') = true /\
+  incl (coids (fst st')) (coids (fst st)).
+Proof. exact actions_refine2. Qed.
+Print Assumptions C03_chain.
+
+(* THE HISTORY THEOREM: for every list of Set (renames included) / Create / Delete operations that
+   completes, the invariants asked of the FIRST document only, the run refines the plain-data run and
+   the last document satisfies the invariants again. *)
+Theorem C03_history : forall lit fl ops d k d',
+  doc_inv d = true -> hist_ok2 lit fl ops d = true -> run_ops lit fl ops d k = HDone d' ->
+  psteps (abs_ops2 lit fl ops d) (erase d) (erase d') /\ doc_inv d' = true.
+Proof. exact history_refines2. Qed.
+Print Assumptions C03_history.
+
+Theorem C03_history_failed_prefix_inv : forall lit fl ops d k d' e n,
+  doc_inv d = true -> hist_ok2 lit fl ops d = true -> run_ops lit fl ops d k = HFailed d' e n ->
+  exists done rest op d0, ops = (done ++ op :: rest)%list /\ n = (k + List.length done)%nat /\
+    run_ops lit fl done d k = HDone d0 /\ psteps (abs_ops2 lit fl done d) (erase d) (erase d0) /\
+    doc_inv d0 = true /\ run_op lit fl op d0 = Failed d' e.
+Proof. exact history_failed_prefix2. Qed.
+Print Assumptions C03_history_failed_prefix_inv.
+
+(* PATH histories: ce_doc_ok (= doc_inv && identities below the evaluator model's private range) of the
+   FIRST document; the per-step guards are the read-side guards of C03_set_end_to_end WITHOUT their
+   document clause (ce_hist_guard2; for a Create step: the counter the walk returns stays below
+   Eval.copy_base = 2^32, a bound of the MODEL) and hist_ok2 of the trace. *)
+Theorem C03_history_end_to_end_inv :
+  forall lit re_search nstr vstr kw_handler creator fl ops d k d',
+    ce_doc_ok d = true ->
+    ce_run_ops lit re_search nstr vstr kw_handler creator fl ops d k = ChDone d' ->
+    exists hops,
+      ce_trace lit re_search nstr vstr kw_handler creator fl ops d = Some hops /\
+      List.length hops = List.length ops /\
+      run_ops lit fl hops d k = HDone d' /\
+      (hist_ok2 lit fl hops d = true ->
+         psteps (abs_ops2 lit fl hops d) (erase d) (erase d') /\ doc_inv d' = true /\
+         (ce_hist_guard2 lit re_search nstr vstr kw_handler creator fl ops d = true ->
+          ce_hist_sem lit re_search nstr vstr kw_handler creator fl ops d)).
+Proof. exact history_e2e2. Qed.
+Print Assumptions C03_history_end_to_end_inv.
+
+(* non-vacuity: on {k: &a x, l: [*a], m: *a}
+   rename k -> kk ([name()]) / set kk := new (three locations) / delete l[0] / create l[1].z := 7 / rename m -> n:
+   doc_inv holds of the first document, the guard hist_ok2 along the run; 8 plain-data steps. *)
+Definition hist23r : list hop :=
+  [ HSet [CNode (mkpc (Some 0%N) (PStr "k")) true] (PStr "kk") FDefault None;
+    HSet [CNode (mkpc (Some 0%N) (PStr "kk")) false] (PStr "new") FBare None;
+    HDelete [CNode (mkpc (Some 4%N) (PInt 0)) false];
+    HCreate [SKey "l" (Some 3%N); SIdx 1; SKey "z" None] (PInt 7) FInt None;
+    HSet [CNode (mkpc (Some 0%N) (PStr "m")) true] (PStr "n") FDefault None ].
+Example C03_history_rename_nonvacuous :
+  doc_inv doc23 = true /\ hist_ok2 no_lit no_fl hist23r doc23 = true /\
+  match run_ops no_lit no_fl hist23r doc23 0 with
+  | HDone d' =>
+      erase d' = DMap [ (PStr "kk", DLeaf (PStr "new"));
+                        (PStr "l", DSeq [DMap []; DMap [ (PStr "z", DLeaf (PInt 7)) ]]);
+                        (PStr "n", DLeaf (PStr "new")) ]
+  | HFailed _ _ _ => False
+  end /\
+  List.length (abs_ops2 no_lit no_fl hist23r doc23) = 8%nat.
+Proof. vm_compute. repeat split. Qed.
+
+(* a rename onto an existing key is refused and nothing changes; a rename in a sequence is refused *)
+Example C03_rename_refused :
+  run_ops no_lit no_fl [HSet [CNode (mkpc (Some 0%N) (PStr "k")) true] (PStr "m") FDefault None] doc23 0
+  = HFailed doc23 (YPE DuplicateKey) 0 /\
+  run_ops no_lit no_fl [HSet [CNode (mkpc (Some 4%N) (PInt 0)) true] (PStr "q") FDefault None] doc23 0
+  = HFailed doc23 (YPE Generic) 0.
+Proof. vm_compute. split; reflexivity. Qed.
+
+(* the path history of C03_history_end_to_end_nonvacuous satisfies the new hypotheses as well *)
+Example C03_history_end_to_end_inv_nonvacuous :
+  ce_doc_ok doc_e3 = true /\
+  ce_hist_guard2 no_lit e3_re e3_nstr e3_vstr e3_kw e3_cr no_fl hist_e3 doc_e3 = true /\
+  match ce_trace no_lit e3_re e3_nstr e3_vstr e3_kw e3_cr no_fl hist_e3 doc_e3 with
+  | Some hops => hist_ok2 no_lit no_fl hops doc_e3 = true /\ List.length (abs_ops2 no_lit no_fl hops doc_e3) = 8%nat
+  | None => False
+  end.
+Proof. vm_compute. repeat split. Qed.
+
+(* the guard of C03_history asks less than the guard of C03_history_partial (which re-checked wf_attr /
+   wf_docb / mkeys_distinct at every operation and excluded renames) *)
+Theorem C03_guard_weaker : forall lit fl ops d, hist_ok lit fl ops d = true -> hist_ok2 lit fl ops d = true.
+Proof. exact hist_ok_ok2. Qed.
+Print Assumptions C03_guard_weaker.
